@@ -196,6 +196,14 @@ def run_block(block, rec):
         for t in ("sound_event_classification", "sound_event_detection"):
             rec.add(run_case({"task": t, "k": BIG_K, "clips": [items[:2], items[2:]], "extra": [0, 0]}))
             rec.add(run_case({"task": t, "k": BIG_K, "clips": [items], "extra": [0, 0]}))
+        # every one of the 300 classes has a positive (the mean average precision is only judged then): one event per class
+        full = []
+        for y in range(BIG_K):
+            v = [0.0] * BIG_K
+            v[y] = 0.5
+            v[(y + 1) % BIG_K] = 0.25
+            full.append([[y], v])
+        rec.add(run_case({"task": "sound_event_detection", "k": BIG_K, "clips": [full], "extra": [0, 0]}))
         return
     if sp in ("clips", "clips3"):
         kinds = item_kinds(task, k, block["tier"]) if sp == "clips" else reduced_kinds(task)
